@@ -299,7 +299,9 @@ class NpCalls:
             ng = ('CARTSQ', g[1]) if is_cart(g) else (('DIST2',) if g == ('DIST',) else None)
             return out.w(geo=ng, mono=m ** 2 if m is not None else None)
         if name in ('abs', 'absolute', 'negative', 'real', 'conj', 'trunc'):
-            return out.w(geo=g, mono=m, idx=x.idx)
+            if name in ('abs', 'absolute') and x.fft is not None and x.fft[0] in ('ifft', 'irfft'):
+                interp.emit('abs_of_inverse_fft', node, arg=x)
+            return out.w(geo=g, mono=m, idx=x.idx, fft=x.fft if name in ('real', 'conj') else None)
         if name in ('floor', 'ceil', 'round', 'around', 'rint'):
             o = out.w(mono=m, intpart_of=(norm_text(node.args[0]) if node is not None and node.args else None, x))
             if is_fdiff(g) and name in ('round', 'around', 'rint'):
@@ -564,6 +566,8 @@ class NpCalls:
         if is_fractional(g) or (g is not None and g[0] == 'SYMIMG'):
             interp.emit('euclid_on_frac', node, what='Euclidean norm of fractional coordinates', arg=x)
         elif is_cart(g):
+            if g[2] == 'rawdiff':
+                interp.emit('nonperiodic_distance', node, arg=x)
             if XYZ in removed or axis == 'none':
                 ng = ('DIST',)
             else:
